@@ -204,12 +204,18 @@ def one_path(eng, run, c, fi, nested, self_cls, rep):
     try:
         try:
             run.inline_stack.append(fi.key)
+            gen_out = None
             if getattr(fi, "is_generator", False) and nested is None:
-                raise Unsupported("generator function under contract")
+                # a generator under contract: `result` is the list of the values it yields (pure generators only)
+                if not eng.B.generator_is_pure(fi.node):
+                    raise Unsupported("generator with interleaving side effects under contract")
+                gen_out = eng.B.new_list(eng)
+                run.yield_stack.append(gen_out)
+                run.assumptions_used.add("side-effect-free generators are evaluated eagerly (equivalent to lazy evaluation for pure generators)")
             eng.exec_block(node.body, frame)
-            outcome = ("return", TV_NONE)
+            outcome = ("return", TV(gen_out.term) if gen_out is not None else TV_NONE)
         except ReturnSig as r:
-            outcome = ("return", r.value)
+            outcome = ("return", r.value if gen_out is None else TV(gen_out.term))
         except PyRaise as pr:
             outcome = ("raise", pr)
     except (PathEnd, Infeasible):
